@@ -11,11 +11,19 @@ CHECKS = {
    text="Seeded histories of bind/copy/nest/pass/mutate/observe events over arrays and maps of sizes 0..20 (both sides of the 8-element/4-pair thresholds) run as inputs on one real session; after every event every live name is observed as a typed canonical tree and compared with a copy-on-bind reference model; failing operations must change nothing and an assignment cancelled by a deadline fault at a random virtual tick must leave old or new value. Recorded in-place-mutation findings on large containers are matched by (kind, container, size class, mutation family), counted, and the session re-synchronised so the search continues; any mismatch on small containers or on another path is a VIOLATION.",
    note="The model encodes copy-on-bind value semantics as the documented behaviour; elements are integers or nested containers, map keys strings.",
    tech="deterministic simulation: seeded operation histories + injected cancellation, checked after every step against a small executable value-semantics model"),
+ "C09": dict(cat="exploration", ref="5.5",
+   text="(a) for 22 programs (non-terminating loops of every for form, unbounded/mutual recursion, closures, heavy operators, sleep) the virtual deadline is swept over EVERY tick 1..min(T,cap): EvalOne must return, polls after firing stay within N*(D+2), the outcome is an error/recovered panic, virtual sleep honours the deadline, a probe input works afterwards; a runaway evaluation (2M polls after firing) is broken by the simulator and reported. (b) MaxDepth 10..3000 with direct/mutual/closure/eval()/nested-source recursion must end in the max-depth guard or a value, and a recursion calibrated to MaxDepth-eps must succeed right after. (c) child processes under RLIMIT_AS=4GiB and GOMEMLIMIT=64MiB evaluate repetition/range/concat/doubling programs with operands across 2^31/2^63 through repl.EvalStringWithOption and must exit normally with a result or the memory/depth guard.",
+   note="No real clock: wall-clock latency of cancellation is not decided (one tick = one evaluated node). Peak RSS is not judged. A child exceeding 120 s real time is noted, not judged.",
+   tech="deterministic simulation: virtual-clock deadline swept over every cancellation instant, depth guard under random limits, memory guard via injected budget and address-space-limited child processes"),
  "C10": dict(cat="exploration", ref="5.6",
    text="Seeded search over session histories: each base history of succeeding inputs is executed on the real interpreter with and without side-effect-free failing inputs (language error, Go runtime panic in a function, depth overflow, deadline at a PRNG-chosen virtual tick, injected allocation refusal, writer error) inserted at random positions/multiplicities; every later input must produce identical output/value/outcome (and identical tick count with the cache off), and final globals must agree. Sampling, not proof.",
    note="Trusts the harness generator's construction of side-effect-free failing inputs and the virtual clock (1 tick per evaluated node) standing for real deadlines; error wording is not compared.",
    tech="deterministic simulation: seeded session histories + injected cancellation/allocation/writer faults, differential against the fault-free history of the same real code"),
 
+ "C03": dict(cat="exploration", ref="5.1",
+   text="Seeded in-process histories interleave format(text, normal|compact) with full evaluation of other inputs (which grows the process-global token interning table and the globals) and with repeated formatting; texts come from the workload grammar decorated with line/block comments and line breaks at statement boundaries; each output is formatted again. Every format of a text must give the bytes of its first occurrence; a fresh worker process (different map hash seed, empty interning table) formatting the same texts in reverse order must produce identical bytes; format(format(t)) == format(t) in both modes; normal mode ends with exactly one newline.",
+   note="The 'all parseable texts' quantifier is only sampled through the grammar (byte mutation would be input fuzzing); the recorded normal-mode sign-leading-statement finding is confined to a probe.",
+   tech="deterministic simulation: seeded histories of format/evaluate events in one process plus a second OS process, checking history- and process-independence and the fixpoint of the real printer"),
  "C04": dict(cat="exploration", ref="5.2",
    text="Seeded search over REPL input sequences (definitions, leaf redefinitions, repeated and verbatim re-submitted calls, closures, outer reads/writes, prints, rand/time, cancellations inside printing calls) executed on the real interpreter with the cache on and, through hook H1, off, under identical rand/time streams; per input the output bytes, value, outcome class and rand/time call counts must be identical, and final globals must agree. Recorded design-level staleness findings are confined to fixed probe histories (KNOWN-FINDING).",
    note="log() is not generated (documented as uncaptured); sleep() being memoizable is not judged; in-place mutation of a large container returned by a cached call is attributed to C06 and kept out of this generator.",
@@ -41,6 +49,10 @@ CHECKS = {
    text="The simulator acts as the transport of source text and decides fragmentation: seeded scripts (multi-line statements, comments, macros before use) are (a) parsed in file and line mode and compared by a harness-side structural dump, (b) cut at every token boundary reported by the real lexer (plus positions inside strings/block comments): every prefix ending inside an open ( [ { string/comment or after a binary operator must yield a continuation request without errors, and line-by-line feeding through the REPL's prev+line accumulation must give the same statements, (c) delivered to a persistent session as one input and as every split into consecutive chunks (all 2^(n-1) for n<=7), optionally with failing inputs between chunks: same program output and final globals.",
    note="Chunks are aligned with generator-known top-level statements, each terminated by ';' because grol continues a statement across a newline before ++/--; repl.Interactive's terminal loop is re-implemented (6 lines) around the real parser.",
    tech="deterministic simulation: the simulator fragments the input stream (all cuts / all splits per script) and injects failing inputs; differential against whole-file delivery on the same real code"),
+ "C17": dict(cat="exploration", ref="5.11",
+   text="One worker process per IO configuration (restricted, empty-only, load/save disabled; unrestricted as positive control). Histories interleave save/load/image.save/exec/run attempts with hostile names (path separators, parent references, NUL, space, ~, non-ASCII, embedded/double .gr, absolute paths, empty) and ordinary inputs inside a scratch tree with decoy files carrying unique marker bindings. After every event the whole tree incl. parent and sibling directories is snapshotted (path, size, sha256, mode): writes only to ./<ident>.gr (./.gr in empty-only) and ./grol.png, decoys byte-identical, rejected names error and change nothing, no forbidden marker ever becomes visible, exec/run unknown, and the decision for a name is position independent. The control configuration shows the monitor does see escapes.",
+   note="Sampling biased to hostile shapes, not exhaustive to length 6 (that would be bounded enumeration). Reads are detected through marker bindings, not syscall tracing.",
+   tech="deterministic simulation: seeded request histories against a real scratch file system, file-system snapshot invariant evaluated after every event, one process per frozen configuration"),
  "C18": dict(cat="fault_enumeration", ref="5.12",
    text="For each generated pair (previous state A, new state B; 0..200 bindings) a reference worker process performs the real AutoSave twice and reports the crash points passed; then every crash point (before/after CreateTemp, after each written binding, after the last write, before/after rename) is enumerated by a fresh worker that SIGKILLs itself there, and ./.gr must be byte-identical to file(A) or file(B); write failures are injected with RLIMIT_FSIZE at a stride of byte offsets (EFBIG from the kernel): AutoSave must report an error and leave file(A); unchanged state must not be saved at all.",
    note="Crash = process death (page cache survives); power loss / fsync ordering is out of scope as the property speaks of process death. The unwritable-directory fault is skipped when running as root.",
